@@ -111,7 +111,7 @@ def run(db: DB, rep: Report) -> None:
         if len(fields) != 1 or len(locs) != 1:
             continue
         field, local = fields[0], locs[0]
-        _, exprs = paths.backward_slice(fn, [local])
+        _, exprs = paths.backward_slice(fn, [local], with_control=False)
         calls = paths.called_names(exprs)
         kind = None
         if "get_config" in calls:
@@ -120,6 +120,9 @@ def run(db: DB, rep: Report) -> None:
             kind = "components"
         elif "get_loop_order" in calls or "get_space" in calls or "get_spacetime" in calls:
             kind = "ranks"
+        if kind is None and isinstance(atom, ast.Call) and isinstance(atom.func, ast.Attribute) and \
+                atom.func.attr in ("intersection", "isdisjoint"):
+            kind = "components"
         if kind is None:
             continue
         # operator shape: equality for config/ranks, disjointness for components
